@@ -6,14 +6,16 @@ setup_jax(True)
 
 def run_case(c):
     spec = dict(c["spec"])
-    if c.get("grid"):
-        g = c["grid"]
+    g = c.get("grid")
+    if g:
         sp = spec.get("spacing", 5e-8)
         shape = spec["shape"]
-        if g == "rectilinear":
+        if g == "rect_custom":
             spec["grid_obj"] = fdtdx.RectilinearGrid.custom(*[jnp.asarray(np.arange(n + 1) * sp, dtype=jnp.float64) for n in shape])
+        elif g == "rect_uniform":
+            spec["grid_obj"] = fdtdx.RectilinearGrid.uniform(shape=tuple(shape), spacing=sp)
         elif g == "quasi":
-            spec["grid_obj"] = fdtdx.QuasiUniformGrid(spacing_x=sp, spacing_y=sp, spacing_z=sp) if hasattr(fdtdx.QuasiUniformGrid, "__init__") else None
+            spec["grid_obj"] = fdtdx.QuasiUniformGrid(dx=sp, dy=sp, dz=sp)
     oc, arrays, cfg, _ = build(spec)
     if c.get("shard"):
         pass
